@@ -978,7 +978,10 @@ impl Server {
                     }
 
                     // Remove the prepared statement from the cache, it has a syntax error or something else bad happened.
-                    if let Some(prepared_stmt_name) =
+                    // After an error the server skips everything up to the next Sync, so every
+                    // statement of this batch that is still waiting for its ParseComplete was
+                    // never prepared either.
+                    while let Some(prepared_stmt_name) =
                         self.registering_prepared_statement.pop_front()
                     {
                         if let Some(ref mut cache) = self.prepared_statement_cache {
